@@ -108,7 +108,7 @@ Definition cancel_w (w : writer) : writer * bool :=
   else (mkW (w_key w) (w_open w) (w_buf w) (w_seen w) FCancelled, true).
 Definition cancel := app_w cancel_w.
 
-Inductive res := ROk | ROSError | RInvalid | RNew (i : nat) | RBadId.
+Inductive res := ROk | ROSError | RInvalid | RNew (i : nat) | RBadId | RRead (b : bytes) | RSkipped.
 
 Section C01.
 Variable H : bytes -> bytes.     (* sha384 *)
@@ -239,9 +239,28 @@ Definition io_done (s : state) : state :=
   | Some b => enq [QSetState] (set_store (Some b) (set_io None s))
   end.
 
+(* `with blob.reader_context() as r: r.read()`: refused unless verified; a BlobBuffer hands its bytes out once
+   (its _reader_context closes the buffer and clears verified), a BlobFile just reads the file *)
+Definition read_blob (s : state) : state * res :=
+  if s_verified s then
+    match s_store s with
+    | Some b => (match kd with KBuffer => set_verified false (set_store None s) | KFile => s end, RRead b)
+    | None => (s, ROSError)
+    end
+  else (s, ROSError).
+
+(* blob.delete() - modelled only when nothing of this blob is in flight (empty ready queue, no executor job, not
+   writing); otherwise the operation is skipped (by the harness too).  close(), verified.clear(), length = None,
+   the file / the buffer is removed. *)
+Definition settled (s : state) : bool :=
+  match s_q s, s_io s with [], None => negb (s_writing s) | _, _ => false end.
+Definition delete_blob (s : state) : state * res :=
+  if settled s then (set_len None (set_store None (set_verified false (close_blob s))), ROk)
+  else (s, RSkipped).
+
 Inductive op :=
 | SetLength (n : Z) | Open (k : N) | Write (i : nat) (d : bytes) | CloseW (i : nat) | CloseBlob
-| Tick | Drain | IoDone.
+| Tick | Drain | IoDone | Read | Delete.
 
 Definition step (o : op) (s : state) : state * res :=
   match o with
@@ -253,6 +272,8 @@ Definition step (o : op) (s : state) : state * res :=
   | Tick => (tick s, ROk)
   | Drain => (drain s, ROk)
   | IoDone => (io_done s, ROk)
+  | Read => read_blob s
+  | Delete => delete_blob s
   end.
 
 Definition run (ops : list op) (s : state) : state := fold_left (fun st o => fst (step o st)) ops s.
